@@ -1,7 +1,7 @@
 INIT Init
 NEXT Next
 CONSTANTS
-  Part = "chain"
+  Part = "lit"
   MaxDim = 4
   NReal = 7
   NCplx = 3
